@@ -407,6 +407,24 @@ pub fn run(o: &Opts) -> i32 {
                 add(format!("gen-shuffle{}", i), format!("generated database, random permutation #{}", i), vec![r], &mut names);
             }
         }
+        "c07" => {
+            // name resolution while a substance block is loaded: Context::lookup consults the block's own
+            // names (temporaries) before the database
+            let bu = |n: &str| DefEntry { name: n.into(), def: Rc::new(Def::BaseUnit { long_name: None }), doc: None, category: None };
+            let sub = |name: &str, props: Vec<(&str, &str, &str, &str, &str)>| DefEntry { name: name.into(), doc: None, category: None, def: Rc::new(Def::Substance { symbol: None,
+                properties: props.into_iter().map(|(n, inn, i, outn, o)| { let mut a = rink_core::loader::gnu_units::TokenIterator::new(i).peekable(); let mut b = rink_core::loader::gnu_units::TokenIterator::new(o).peekable();
+                    Property { name: n.into(), input_name: inn.into(), output_name: outn.into(), doc: None, input: ExprString(rink_core::loader::gnu_units::parse_expr(&mut a)), output: ExprString(rink_core::loader::gnu_units::parse_expr(&mut b)) } }).collect() }) };
+            let a = vec![bu("m"), bu("kg"), unit("len", "6 m"), unit("mass", "7 m"),
+                sub("thing", vec![("size", "sizein", "1", "len", "10 m"), ("double", "din", "1", "dout", "2 len"), ("weight", "win", "1", "mass", "3 kg"), ("dens", "volume", "1 m^3", "densout", "mass")])];
+            add("shadow-unit".into(), "a property named like a unit shadows it inside its substance".into(), vec![a.iter().collect()], &mut names);
+            let b = vec![bu("m"), bu("s"), unit("year", "31557600 s"), unit("mas", "3 m"),
+                sub("planet", vec![("mass", "massin", "1", "massout", "5 m^3"), ("year", "yin", "1", "yout", "2 s"), ("spin", "spinin", "1", "spinout", "1 / year"), ("ratio", "rin", "1", "rout", "mass / yout")])];
+            add("shadow-plural".into(), "property names that also read as a plural / an exact unit".into(), vec![b.iter().collect()], &mut names);
+            // the same on top of the bundled database (`mass` reads as the plural of `mas`, `year` is a unit)
+            let mut c: Vec<DefEntry> = text_defs(base_text);
+            c.push(sub("c07planet", vec![("mass", "massin", "1", "massout", "6 kg"), ("volume", "volin", "1", "volout", "2 m^3"), ("year", "yearin", "1", "yearout", "10 s"), ("density", "din", "1", "dout", "massout / volout"), ("spin", "sin", "1", "sout", "1 / yearout"), ("rho", "rin", "1", "rout", "mass / volume")]));
+            add("shadow-bundled".into(), "a user substance on top of the bundled database whose property names collide with database names".into(), vec![c.iter().collect()], &mut names);
+        }
         _ => {
             // c13: hostile definition lists
             let mut scen: Vec<(String, String, Vec<DefEntry>)> = vec![];
@@ -441,6 +459,10 @@ pub fn run(o: &Opts) -> i32 {
             scen.push(("subst-cycle".into(), "substance property referring to itself".into(), vec![bu("kg"), subst("stuff", vec![("p", "a", "1 kg", "b", "p of stuff")])]));
             scen.push(("subst-missing".into(), "substance property with unknown unit".into(), vec![subst("stuff", vec![("p", "a", "1 nosuch", "b", "2 nosuch")])]));
             scen.push(("subst-conflict".into(), "conflicting property names".into(), vec![bu("kg"), bu("m"), subst("stuff", vec![("dens", "volume", "1 m^3", "mass", "5 kg"), ("dens2", "volume", "1 m^3", "mass", "6 kg")])]));
+            // names inside a substance block shadow the database while the block is loaded (Context::lookup
+            // consults the temporaries first)
+            scen.push(("subst-shadow".into(), "a property named like a unit shadows it inside its substance".into(), vec![bu("m"), bu("kg"), unit("len", "6 m"), unit("mass", "7 m"),
+                subst("thing", vec![("size", "sizein", "1", "len", "10 m"), ("double", "din", "1", "dout", "2 len"), ("weight", "win", "1", "mass", "3 kg"), ("dens", "volume", "1 m^3", "densout", "mass")])]));
             scen.push(("degree-missing".into(), "temperature suffix without its constants".into(), vec![unit("t", "5")]));
             // random grammar-directed lists
             let nrand = if o.thorough { 400 } else { 40 };
